@@ -45,6 +45,13 @@ def uci_garbage_session(args):
     eng = uci.Engine("asan", "material_1")
     eng.send("uci"); eng.send("isready")
     lines = []
+    # numbers at the edge of int in every numeric 'go' parameter (each search is stopped at once; only crashes and sanitizer reports count)
+    big = rnd.choice(["2147483647", "2147483646", "-2147483648", "1073741824", "300000000", "99999999999999999999", "-1"])
+    for l in ("go wtime %s btime %s winc %s binc %s movestogo %s" % (big, big, big, big, rnd.choice(["0", "1", "40", big])),
+              "go ponder wtime %s btime %s winc %s binc %s" % (big, big, big, big), "go movetime %s" % big, "go depth %s" % big, "go nodes %s" % big, "go mate %s" % big):
+        if rnd.random() < .5:
+            eng.send("setoption name Ponder value %s" % rnd.choice(["true", "false"]))
+            eng.send(l); eng.send("stop"); lines.append(l)
     for i in range(nlines):
         base, _ = rnd.choice(sessions.gen_session(rnd, maxlen=8)[0] or [("isready", 0)])
         if base.startswith("go") and "infinite" not in base and rnd.random() < .5:
